@@ -62,9 +62,9 @@ def run(rep, tier, seed):
             dict(name="mat23_len2", D=2, P=1, pool="PoolMat", acts="ActsShape", idx="IdxMat", rs="RsCat", maxlen=2, maxobjs=6),
             dict(name="3d_len2", D=2, P=1, pool="Pool3D", acts="ActsShape", idx="IdxMat", rs="RsCat", maxlen=2, maxobjs=6),
             dict(name="vec4_sim_len4", D=2, P=1, pool="PoolVec4", acts="ActsShape", idx="IdxVec", rs="RsCat", maxlen=4, maxobjs=8,
-                 simulate=4000, depth=5),
+                 simulate=1200, depth=5),
             dict(name="mat22_sim_len4", D=2, P=2, pool="PoolMat22", acts="ActsShape", idx="IdxMat", rs="RsCat", maxlen=4, maxobjs=8,
-                 simulate=3000, depth=5),
+                 simulate=800, depth=5),
         ]
     U.machine_check(rep, configs, "C13", variants=(0, 1))
     fft_axes(rep, load_algopy(), seed)
